@@ -263,6 +263,89 @@ def interp_rules(repo, rep, only=None, fields=(0, 1, 2, 3)):
             rep.violated('R-ROUND', key, w, 'results rounded to %s decimals: coarser than 1e-6 of the field unit' % digs, expected='>= 6', actual=str(digs))
 
 
+def position_rule(rep, f, found):
+    """the latitude / longitude compared with the extents (and handed to the interpolators) are lat * 3600 and lon * -3600 of the ARGUMENTS for
+    every position: the function does not re-map part of the plane (a conditional wrap, a clamp, a rounding) before it looks the position
+    up - a point on the edge of a sub-grid that ends at the antimeridian (lon = 180.0 exactly) would fall out of it.  Straight-line
+    evaluation of the assignments that precede the containment test; an assignment under a condition is a piecewise re-mapping."""
+    ps = [p.name for p in f.params]
+    if len(ps) < 3:
+        return
+    env = {ps[1]: Rat.sym('lat'), ps[2]: Rat.sym('lon')}
+    cond = {}
+
+    def ev(e):
+        if isinstance(e, ast.Constant) and isinstance(e.value, (int, float)) and not isinstance(e.value, bool):
+            return C(F(str(e.value)))
+        if isinstance(e, ast.Name):
+            return env.get(e.id)
+        if isinstance(e, ast.UnaryOp) and isinstance(e.op, ast.USub):
+            v = ev(e.operand)
+            return None if v is None else C(0) - v
+        if isinstance(e, ast.BinOp):
+            a, b = ev(e.left), ev(e.right)
+            if a is None or b is None:
+                return None
+            if isinstance(e.op, ast.Add):
+                return a + b
+            if isinstance(e.op, ast.Sub):
+                return a - b
+            if isinstance(e.op, ast.Mult):
+                return a * b
+            if isinstance(e.op, ast.Div) and not b.is_zero():
+                return a / b
+        if isinstance(e, ast.Call) and getattr(e.func, 'id', '') == 'float' and len(e.args) == 1:
+            return ev(e.args[0])
+        return None
+    stop = found.lineno
+
+    def run(stmts, under):
+        for st in stmts:
+            if st.lineno >= stop:
+                return
+            if isinstance(st, ast.Assign) and len(st.targets) == 1 and isinstance(st.targets[0], ast.Name):
+                nm = st.targets[0].id
+                if nm in env or nm in (ps[1], ps[2]):
+                    env[nm] = ev(st.value)
+                    if under is not None:
+                        cond[nm] = (under, st)
+            elif isinstance(st, ast.AugAssign) and isinstance(st.target, ast.Name) and st.target.id in env:
+                env[st.target.id] = ev(ast.BinOp(left=ast.Name(id=st.target.id, ctx=ast.Load()), op=st.op, right=st.value))
+                if under is not None:
+                    cond[st.target.id] = (under, st)
+            elif isinstance(st, ast.If):
+                run(st.body, st)
+                run(st.orelse, st)
+            elif isinstance(st, (ast.For, ast.While, ast.With, ast.Try)):
+                run(getattr(st, 'body', []), under)
+    run(f.node.body, None)
+    for v, (axis, pname, want, txt) in zip(found.test.values, (('latitude', ps[1], Rat.sym('lat') * C(3600), 'lat * 3600'), ('longitude', ps[2], Rat.sym('lon') * C(-3600), 'lon * -3600'))):
+        mid = v.comparators[0]
+        key = 'R-GUARD::geodepy/ntv2reader.py::interpolate_ntv2::position-' + axis
+        if not isinstance(mid, ast.Name):
+            rep.undecided('R-GUARD', key, where(f, found), 'the %s compared with the extents is not a plain variable' % axis)
+            continue
+        if mid.id in cond:
+            under, st = cond[mid.id]
+            # a condition that no position of the domain (lat in [-90, 90], lon in [-180, 180]) satisfies re-maps nothing
+            from ..intervals import Interp
+            ip = Interp({ps[1]: (-90, 90), ps[2]: (-180, 180)})
+            if ip.test(under.test, dict(ip.env)) is False and st in under.body:
+                rep.holds('R-GUARD', key, where(f, st), 'the re-mapping `if %s` cannot apply to a position of the domain' % stmt_text(under.test)[:40])
+                continue
+            rep.violated('R-GUARD', key, where(f, st), 'the %s looked up in the grid is re-mapped under a condition (`if %s: %s`): positions on that side of the condition are not '
+                         'the caller\'s - a point exactly on the condition\'s boundary (a sub-grid edge at the antimeridian, lon = 180.0) is moved out of the sub-grid that contains it' % (
+                             axis, stmt_text(under.test)[:40], stmt_text(st)[:40]), expected='%s = %s for every position' % (mid.id, txt), actual='if %s: %s' % (stmt_text(under.test)[:40], stmt_text(st)[:40]))
+            continue
+        got = env.get(mid.id)
+        if got is None:
+            rep.undecided('R-GUARD', key, where(f, found), 'the value of `%s` at the containment test is not an arithmetic form of the arguments' % mid.id)
+        elif alg.decide_equal(got, want) == 'equal':
+            rep.holds('R-GUARD', key, where(f, found), 'the %s compared with the extents is %s of the argument, for every position' % (axis, txt))
+        else:
+            rep.violated('R-GUARD', key, where(f, found), 'the %s compared with the extents is %s, not %s of the argument' % (axis, alg.fmt(got, 2)[:60], txt), expected=txt, actual=alg.fmt(got, 2)[:80])
+
+
 def selection_rules(repo, rep):
     f = repo.func('geodepy.ntv2reader', 'interpolate_ntv2')
     rep.analysed(f)
@@ -302,6 +385,9 @@ def selection_rules(repo, rep):
         else:
             rep.violated('R-GUARD', key, where(f, found), 'containment test is not s_lat <= lat < n_lat and e_long <= lon < w_long of one sub-grid: %s' % txt,
                          expected='sg.s_lat <= lat < sg.n_lat and sg.e_long <= lon < sg.w_long', actual=txt)
+    # what is compared with the extents: the arguments themselves, scaled to arc-seconds (longitude positive west) - unconditionally
+    if found is not None:
+        position_rule(rep, f, found)
     # no match -> four Nones
     key = base + 'outside'
     rets = [n for n in ast.walk(f.node) if isinstance(n, ast.Return) and isinstance(n.value, ast.Tuple) and len(n.value.elts) == 4
